@@ -1,8 +1,14 @@
 """Generator of core-fragment programs (Lang): one abstract tree -> Python source text + S-expression for the Lean model."""
 from __future__ import annotations
 
+import random as _random
+import zlib as _zlib
+
 INTS = ["a", "b", "c", "d"]
 BOOLS = ["p", "q"]
+STRS = ["s", "t"]          # W13: string-typed names, first assigned at top level (`u` is introduced by a promoted branch)
+LIT_CHARS = "abcxyzKQ019 _=:!.-"      # plus now and then one of LIT_ODD (escaping in the C++ literal); never `#` alone (the mock's marker line)
+LIT_ODD = ['"', "\\", "'", "%", "{", "}", "?", "(", ")", ";", "//"]
 BIN = {"add": "+", "sub": "-", "mul": "*", "band": "&", "bor": "|", "bxor": "^", "fdiv": "//", "fmod": "%"}
 BIT = ["band", "bor", "bxor"]
 DIV = ["fdiv", "fmod"]
@@ -11,8 +17,9 @@ CMP = {"lt": "<", "le": "<=", "gt": ">", "ge": ">=", "eq": "==", "ne": "!="}
 
 
 class G:
-    def __init__(self, rng, max_depth=3, promote=False, chains=False):
+    def __init__(self, rng, max_depth=3, promote=False, chains=False, strings=False):
         self.rng = rng
+        self.strings = strings      # W13: a post-pass (own PRNG seeded from the finished program, so the int/bool stream is unchanged) adds text
         self.chains = chains        # conditions may be chained comparisons `a < b <= c` (sugar for `a < b and b <= c`; the model sees the conjunction)
         self.max_depth = max_depth
         self.promote = promote      # top-level compound statements of the prologue may introduce names directly in their bodies (tr2)
@@ -256,7 +263,97 @@ class G:
             loop = self.block(self.max_depth - 1, names, False, r.randint(1, 4))
         # counters of bounded whiles must be declared at top level (fragment) and reset before each while
         decls = [("as", f"n{k}", ("i", 0)) for k in range(1, self.counters + 1)]
-        return {"pre": pre + decls + body_pre, "loop": loop}
+        prog = {"pre": pre + decls + body_pre, "loop": loop}
+        if self.strings:
+            prog = add_strings(prog, len(pre) + len(decls), names, self.promote)
+        return prog
+
+
+# ---- W13: strings.  ('s', text) literal, ('v', 's'|'t'|'u') names, ('ite', c, a, b) over strings; later increments: ('bin','add',…), ('str', e), ('fstr', parts)
+class S:
+    """string-typed expressions and statements over the declared names, drawn from a PRNG of its own"""
+    def __init__(self, r, inames, level):
+        self.r, self.inames, self.level = r, inames, level
+
+    def lit(self):
+        r = self.r
+        n = r.choice([0, 1, 1, 2, 3, 3, 5, 8])
+        cs = [r.choice(LIT_ODD) if r.random() < 0.08 else r.choice(LIT_CHARS) for _ in range(n)]
+        text = "".join(cs)
+        return ("s", "x" if text == "#" else text)
+
+    def cond(self):
+        r = self.r
+        return ("cmp", r.choice(list(CMP)), ("v", r.choice(self.inames)), ("i", r.randint(0, 9)))
+
+    def expr(self, d, snames):
+        r = self.r
+        if d <= 0 or r.random() < 0.45:
+            return ("v", r.choice(snames)) if snames and r.random() < 0.55 else self.lit()
+        return ("ite", self.cond(), self.expr(d - 1, snames), self.expr(d - 1, snames))
+
+    def stmt(self, snames):
+        r = self.r
+        k = r.choice(["wr", "wr", "wr", "as", "as", "swap"])
+        if k == "swap" and len(snames) >= 2:
+            a, b = r.sample(snames, 2)
+            return ("tup", [a, b], [("v", b), ("v", a)])
+        if k == "as" and snames:
+            return ("as", r.choice(snames), self.expr(2, snames))
+        return ("wr", self.expr(2, snames))
+
+
+def add_strings(prog, ndecl, names, promote):
+    """declare `s` (and mostly `t`) after the first `ndecl` top-level statements and sprinkle string statements (serial writes of
+    literals / names / conditional expressions, assignments, swaps) over every block; with `promote`, sometimes a top-level
+    if/else whose branches first assign `u`"""
+    r = _random.Random(_zlib.crc32(repr(prog).encode()))
+    if r.random() < 0.25:
+        return prog
+    inames = [n for n in names if n in INTS]
+    g = S(r, inames, 1)
+    snames = STRS[: r.choice([1, 2, 2])]
+    decls = []
+    for i, n in enumerate(snames):
+        decls.append(("as", n, r.choice([g.lit(), g.lit(), g.expr(1, snames[:i]), ("ite", ("cmp", "lt", ("i", r.randint(0, 5)), ("i", 3)), g.lit(), g.lit())])))
+
+    def inner(st):
+        k = st[0]
+        if k == "if":
+            els = st[3]
+            if len(els) == 1 and els[0][0] == "if":
+                els = [inner(els[0])]          # an `elif` chain stays a chain: nothing is put next to the inner `if`
+            elif els:
+                els = walk(els)
+            return ("if", st[1], walk(st[2]), els)
+        if k == "for":
+            return ("for", st[1], st[2], walk(st[3]))
+        if k == "seqw":
+            w = st[2]
+            return ("seqw", st[1], ("while", w[1], walk(w[2])))
+        return st
+
+    def walk(block):
+        out = []
+        for st in block:
+            if r.random() < 0.22:
+                out.append(g.stmt(snames))
+            out.append(inner(st))
+        if r.random() < 0.3:
+            out.append(g.stmt(snames))
+        return out
+
+    pre = prog["pre"][:ndecl] + decls + walk(prog["pre"][ndecl:])
+    if promote and r.random() < 0.5:
+        both = r.random() < 0.8
+        pre += [("if", g.cond(), [("as", "u", g.expr(1, snames))] + ([("wr", ("v", "u"))] if r.random() < 0.5 else []),
+                 [("as", "u", g.expr(1, snames))] if both else [])]
+        if both or r.random() < 0.5:
+            pre.append(("wr", ("v", "u")))
+    loop = prog["loop"]
+    if loop is not None:
+        loop = walk(loop)
+    return {"pre": pre, "loop": loop}
 
 
 def flatten(block):
@@ -280,6 +377,7 @@ def py_expr(e):
     k = e[0]
     if k == "i": return str(e[1])
     if k == "b": return "True" if e[1] else "False"
+    if k == "s": return repr(e[1])
     if k == "v": return e[1]
     if k == "bin": return f"({py_expr(e[2])} {BIN[e[1]]} {py_expr(e[3])})"
     if k == "neg": return f"(-{py_expr(e[1])})"
@@ -345,6 +443,7 @@ def sx_expr(e):
     k = e[0]
     if k == "i": return f"(i {e[1]})"
     if k == "b": return f"(b {'T' if e[1] else 'F'})"
+    if k == "s": return f"(s x{e[1].encode().hex()})"
     if k == "v": return f"(v {e[1]})"
     if k == "bin": return f"(bin {e[1]} {sx_expr(e[2])} {sx_expr(e[3])})"
     if k == "neg": return f"(neg {sx_expr(e[1])})"
